@@ -50,6 +50,13 @@ impl ClassBody {
 
         for member in features {
             let ty = ClassFeature::type_from_node(&member)?;
+            if fields.iter().any(|field: &Ident| field.name() == ty.name()) {
+                return Err(new_err(
+                    member.as_span(),
+                    &input.user_data().get_source_file_name(),
+                    format!("this class already has a member called `{}`", ty.name()),
+                ));
+            }
             fields.push(ty);
         }
 
